@@ -1,6 +1,7 @@
 package engines
 
 import (
+	"math/big"
 	"encoding/json"
 	"fmt"
 	"math"
@@ -47,6 +48,13 @@ type strictInt struct {
 	ID string `json:"id"`
 }
 
+// ptrRecvMarshaler marshals itself only through a pointer receiver.
+type ptrRecvMarshaler struct{ N int }
+
+func (p *ptrRecvMarshaler) MarshalJSON() ([]byte, error) {
+	return []byte(fmt.Sprintf(`{"custom":%d}`, p.N)), nil
+}
+
 type namedDest struct {
 	name string
 	mk   func() any // fresh, identically pre-populated destination each call
@@ -87,6 +95,16 @@ func bindValues() []zoo.Named {
 		{"raw-with-html", json.RawMessage(`{"name":"<b>"}`)}, {"line-sep", "a\u2028b"},
 		{"result-of-int", flyt.NewResult(5)}, {"result-of-map", flyt.NewResult(map[string]any{"id": 2})}, {"error-result", flyt.NewErrorResult(fmt.Errorf("e"))}, {"zero-result", flyt.Result{}},
 		{"float-id", map[string]any{"id": 1.5}},
+		// types whose marshalers have pointer receivers, held BY VALUE (encoding/json does not call them then) and by pointer (it does)
+		{"struct-with-bigint-by-value", struct {
+			ID    int
+			Total big.Int
+		}{1, *big.NewInt(1250)}},
+		{"bigint-by-value", *big.NewInt(77)}, {"bigint-by-pointer", big.NewInt(78)},
+		{"ptrrecv-marshaler-by-value", ptrRecvMarshaler{5}}, {"ptrrecv-marshaler-by-pointer", &ptrRecvMarshaler{6}},
+		{"struct-holding-ptrrecv-by-value", struct{ M ptrRecvMarshaler }{ptrRecvMarshaler{7}}},
+		{"array-of-ptrrecv", [2]ptrRecvMarshaler{{1}, {2}}}, {"slice-of-ptrrecv", []ptrRecvMarshaler{{3}}},
+		{"bytes-json", []byte(`{"id":7,"name":"b"}`)}, {"bytes-json-array", []byte(`[1,2]`)},
 		{"big-id", map[string]any{"id": 1e30}},
 	}
 	return vals
